@@ -137,6 +137,8 @@ pub struct ModelState {
     pub plain488: bool,
     /// the interface never reports message-available
     pub no_mav: bool,
+    /// what the response buffer handed to the next message already holds
+    pub prefill: Vec<u8>,
 }
 
 impl ModelState {
@@ -262,6 +264,8 @@ pub enum ExpErr {
     CommandClass,
     /// any error in -200..-299
     ExecClass,
+    /// one or the other (where no property fixes which of two faults of one unit is reported)
+    Either(Box<ExpErr>, Box<ExpErr>),
 }
 
 impl ExpErr {
@@ -271,6 +275,7 @@ impl ExpErr {
             ExpErr::Code(c) => *c == e.code,
             ExpErr::CommandClass => is_command_error(e.code),
             ExpErr::ExecClass => is_execution_error(e.code),
+            ExpErr::Either(a, b) => a.accepts(e) || b.accepts(e),
         }
     }
     pub fn describe(&self) -> String {
@@ -279,6 +284,7 @@ impl ExpErr {
             ExpErr::Code(c) => format!("code {}", c),
             ExpErr::CommandClass => "a command error (-100..-199)".to_string(),
             ExpErr::ExecClass => "an execution error (-200..-299)".to_string(),
+            ExpErr::Either(a, b) => format!("{} or {}", a.describe(), b.describe()),
         }
     }
 }
@@ -340,7 +346,61 @@ pub const V_LAZY: u8 = 1; // unit separator written with the unit's first byte
 pub const V_KEEP: u8 = 2; // an undelivered read-and-clear query consumed nothing
 pub const V_OPCQ: u8 = 4; // `*OPC` sets its bit without leaving a -800 item in the queue
 pub const V_LAZYC: u8 = 8; // like V_LAZY, but written at the unit's first header/data call (even an empty one)
+pub const V_DEFER: u8 = 16; // separator attempted before the handler, its failure reported by the handler's finish()
+pub const V_CLEAR: u8 = 32; // the formatter empties a non-empty buffer at message_start instead of appending to it
 
+
+/// A syntactically valid non-decimal literal whose value needs more than 64 bits: no token can
+/// carry its exact value, so it must be refused (a value fault: execution-error class).
+pub fn nondec_wide(e: &Elem) -> bool {
+    if let Elem::Raw(b) = e {
+        // an element rewritten by a catalogued fault: does it (still) begin with such a literal?
+        let b = b.as_slice();
+        if b.len() >= 3 && b[0] == b'#' && matches!(b[1].to_ascii_uppercase(), b'H' | b'Q' | b'B') {
+            let r = match b[1].to_ascii_uppercase() {
+                b'H' => 16,
+                b'Q' => 8,
+                _ => 2,
+            };
+            let digits: String = b[2..].iter().take_while(|c| (**c as char).is_digit(r)).map(|c| *c as char).collect();
+            return nondec_wide(&Elem::NonDec { radix: b[1] as char, digits });
+        }
+        return false;
+    }
+    if let Elem::NonDec { radix, digits } = e {
+        let (r, k) = match radix.to_ascii_uppercase() {
+            'H' => (16u32, 4usize),
+            'Q' => (8, 3),
+            'B' => (2, 1),
+            _ => return false,
+        };
+        if digits.is_empty() || !digits.chars().all(|c| c.is_digit(r)) {
+            return false;
+        }
+        let sig = digits.trim_start_matches('0');
+        if sig.is_empty() {
+            return false;
+        }
+        let first = sig.chars().next().unwrap().to_digit(r).unwrap();
+        let bits = (sig.len() - 1) * k + (32 - first.leading_zeros()) as usize;
+        return bits > 64;
+    }
+    false
+}
+
+/// position and error class of the first element at which lexing the parameters breaks
+fn lex_break(u: &Unit) -> (usize, ExpErr) {
+    let p = u.pfault.as_ref().map(|f| f.p).unwrap_or(usize::MAX);
+    let w = u.params.iter().position(nondec_wide).unwrap_or(usize::MAX);
+    if w < p {
+        (w, ExpErr::ExecClass)
+    } else if w == p && w != usize::MAX {
+        // the unrepresentable literal is also the element carrying the syntax fault
+        (p, ExpErr::Either(Box::new(ExpErr::CommandClass), Box::new(ExpErr::ExecClass)))
+    } else {
+        (p, ExpErr::CommandClass)
+    }
+}
 
 enum Conv {
     Val(u64),
@@ -391,6 +451,7 @@ fn conv_unsigned(e: &Elem, max: u64) -> Conv {
                 Conv::Err(ExpErr::ExecClass)
             }
         }
+        Elem::NonDec { .. } if nondec_wide(e) => Conv::Err(ExpErr::ExecClass),
         Elem::NonDec { .. } => match expected_tok(e) {
             Some(Tok::NonDec(v)) => {
                 if v <= max {
@@ -564,7 +625,7 @@ impl<'a> Interp<'a> {
     fn sim_unit(&mut self, i: usize, u: &Unit, h: usize) -> UnitEnd {
         let plan = &u.plan;
         let n = u.params.len();
-        let p = u.pfault.as_ref().map(|f| f.p).unwrap_or(usize::MAX);
+        let (p, perr) = lex_break(u);
         let mut call = ExpCall {
             unit: i,
             h,
@@ -608,13 +669,13 @@ impl<'a> Interp<'a> {
         for (j, pull) in plan.pulls.iter().enumerate() {
             if pulled >= p {
                 // lexing breaks here (and stays broken: the faulty element is never consumed)
-                call.pulls.push(ExpPull::Err(ExpErr::CommandClass));
+                call.pulls.push(ExpPull::Err(perr.clone()));
                 if plan.swallow {
                     lex_broken = true;
                     continue;
                 }
                 self.calls.push(call);
-                return UnitEnd::FailByHandler(ExpErr::CommandClass);
+                return UnitEnd::FailByHandler(perr);
             }
             if pulled < n {
                 if pull.ty != PullTy::Tok && clearly_wrong_type(pull.ty, &u.params[pulled]) {
@@ -674,35 +735,60 @@ impl<'a> Interp<'a> {
                 }
                 text.extend_from_slice(hd.as_bytes());
             }
+            // the first write that fails is latched by the response unit: later data are not
+            // written, finish() reports it
+            let mut latched: Option<ErrObs> = None;
             for (k, d) in plan.data.iter().enumerate() {
-                if k > 0 {
-                    text.push(b',');
-                } else if !plan.hdr.is_empty() {
-                    text.push(b' ');
-                }
-                let dt = match d {
-                    // an error/event queue item is two response data elements: <NR1>,<string>
-                    Datum::Err(spec) => Ok(render_item(&spec_obs(spec))),
-                    // lists: the elements, each formatted on its own, joined by the data separator
-                    Datum::ArrList(l) => join_elements(l.iter().map(|x| Datum::I64(*x as i64)).collect()),
-                    Datum::VecList(l) => join_elements(l.iter().map(|x| Datum::U64(*x as u64)).collect()),
-                    Datum::ChrList(l) => join_elements(l.iter().map(|x| Datum::Chr(x.clone())).collect()),
-                    other => datum_text(other),
-                };
-                match dt {
-                    Ok(t) => text.extend_from_slice(&t),
-                    Err(e) => {
-                        // the datum itself cannot be formatted: handler's finish returns that
-                        self.write(&text);
-                        self.calls.push(call);
-                        return UnitEnd::FailByHandler(ExpErr::Exact(e));
+                if latched.is_none() {
+                    if k > 0 {
+                        text.push(b',');
+                    } else if !plan.hdr.is_empty() {
+                        text.push(b' ');
                     }
+                    let dt = match d {
+                        // an error/event queue item is two response data elements: <NR1>,<string>
+                        Datum::Err(spec) => Ok(render_item(&spec_obs(spec))),
+                        // lists: the elements, each formatted on its own, joined by the data separator
+                        Datum::ArrList(l) => join_elements(l.iter().map(|x| Datum::I64(*x as i64)).collect()),
+                        Datum::VecList(l) => join_elements(l.iter().map(|x| Datum::U64(*x as u64)).collect()),
+                        Datum::ChrList(l) => join_elements(l.iter().map(|x| Datum::Chr(x.clone())).collect()),
+                        // <STRING RESPONSE DATA> (IEEE 488.2 8.7.8): double quotes around the text,
+                        // a double quote inside it doubled
+                        Datum::Str(b) if b.as_slice().is_ascii() => {
+                            let mut v = vec![b'"'];
+                            for c in b.as_slice() {
+                                if *c == b'"' {
+                                    v.push(b'"');
+                                }
+                                v.push(*c);
+                            }
+                            v.push(b'"');
+                            Ok(v)
+                        }
+                        other => datum_text(other),
+                    };
+                    match dt {
+                        Ok(t) => text.extend_from_slice(&t),
+                        Err(e) => latched = Some(e),
+                    }
+                }
+                if let (Some(e), true, false) = (&latched, plan.finish_each, plan.finish_ignore) {
+                    // the handler asks finish() after every datum and returns what it says
+                    let e = e.clone();
+                    self.write(&text);
+                    self.calls.push(call);
+                    return UnitEnd::FailByHandler(ExpErr::Exact(e));
                 }
                 if let Some(e) = fail_at(Phase::AfterDatum(k)) {
                     self.write(&text);
                     self.calls.push(call);
                     return UnitEnd::FailByHandler(e);
                 }
+            }
+            if let Some(e) = latched {
+                self.write(&text);
+                self.calls.push(call);
+                return UnitEnd::FailByHandler(ExpErr::Exact(e));
             }
             self.write(&text);
             self.unit_text[i] = Some(text);
@@ -711,8 +797,14 @@ impl<'a> Interp<'a> {
         let _ = lex_broken;
         // left-over check
         if pulled < n || p != usize::MAX {
-            if p != usize::MAX {
-                return UnitEnd::Fail(ExpErr::CommandClass);
+            if p != usize::MAX && perr != ExpErr::ExecClass {
+                return UnitEnd::Fail(perr);
+            }
+            if pulled == p {
+                // the unconsumed element is the unrepresentable one: refused for what it is
+                // (directly if it is the first element; behind a `,` the surplus may be
+                // reported first)
+                return UnitEnd::Fail(if p == 0 { perr } else { ExpErr::Either(Box::new(ExpErr::Code(-108)), Box::new(perr)) });
             }
             return UnitEnd::Fail(ExpErr::Code(-108));
         }
@@ -726,7 +818,7 @@ impl<'a> Interp<'a> {
 
     fn contrib_unit(&mut self, i: usize, u: &Unit, c: Contrib) -> UnitEnd {
         let n = u.params.len();
-        let p = u.pfault.as_ref().map(|f| f.p).unwrap_or(usize::MAX);
+        let (p, perr) = lex_break(u);
         // which forms exist (the others are the default stubs: -113)
         let (has_event, has_query) = match c {
             Contrib::Cls | Contrib::Rst | Contrib::Wai | Contrib::StatPreset => (true, false),
@@ -814,7 +906,7 @@ impl<'a> Interp<'a> {
             };
             if let Some(max) = takes {
                 if p == 0 {
-                    return UnitEnd::FailByHandler(ExpErr::CommandClass);
+                    return UnitEnd::FailByHandler(perr);
                 }
                 if n == 0 {
                     return UnitEnd::FailByHandler(ExpErr::Code(-109));
@@ -869,8 +961,11 @@ impl<'a> Interp<'a> {
             }
         }
         // left-over check after the handler returned Ok
-        if p != usize::MAX {
-            return UnitEnd::Fail(ExpErr::CommandClass);
+        if p != usize::MAX && perr != ExpErr::ExecClass {
+            return UnitEnd::Fail(perr);
+        }
+        if p != usize::MAX && consumed == p {
+            return UnitEnd::Fail(if p == 0 { perr } else { ExpErr::Either(Box::new(ExpErr::Code(-108)), Box::new(perr)) });
         }
         if consumed < n {
             return UnitEnd::Fail(ExpErr::Code(-108));
@@ -899,8 +994,9 @@ pub fn predict(root: &MNode, st: &ModelState, step: &SendStep, reading: Reading)
                 wanted |= V_LAZYC;
                 more |= V_LAZYC;
             }
-            for m in 1u8..16 {
-                if m & !wanted != 0 || (m & V_LAZY != 0 && m & V_LAZYC != 0) {
+            for m in 1u8..64 {
+                // (the three framing alternatives exclude each other)
+                if m & !wanted != 0 || (m & (V_LAZY | V_LAZYC | V_DEFER)).count_ones() > 1 {
                     continue;
                 }
                 let a = predict_with(root, st, step, reading, m);
@@ -975,14 +1071,19 @@ pub fn predict_obs(root: &MNode, st: &ModelState, step: &SendStep, reading: Read
 fn predict_with(root: &MNode, st: &ModelState, step: &SendStep, reading: Reading, variant: u8) -> Pred {
     let lazy = variant & (V_LAZY | V_LAZYC) != 0;
     let keep = variant & V_KEEP != 0;
+    let defer = variant & V_DEFER != 0;
     let msg = &step.msg;
     let mav = !st.no_mav && st.outq.get(step.ctl as usize).copied().unwrap_or(false);
     let mut it = Interp {
         root,
-        st: st.clone(),
+        st: {
+            let mut s = st.clone();
+            s.prefill.clear();
+            s
+        },
         reading,
         mav,
-        out: Vec::new(),
+        out: if variant & V_CLEAR != 0 { Vec::new() } else { st.prefill.clone() },
         out_known: true,
         state_known: true,
         structural: true,
@@ -1001,7 +1102,7 @@ fn predict_with(root: &MNode, st: &ModelState, step: &SendStep, reading: Reading
         _ => None,
     };
     let mut result: Result<(), ExpErr> = Ok(());
-    let mut alt_wanted = 0u8;
+    let mut alt_wanted = if st.prefill.is_empty() { 0u8 } else { V_CLEAR };
     let mut fail_unit = None;
     let mut level: Vec<usize> = Vec::new();
     let mut resolved_units = 0;
@@ -1043,9 +1144,9 @@ fn predict_with(root: &MNode, st: &ModelState, step: &SendStep, reading: Reading
                     // the unit separator is pushed before the handler is entered
                     let sep_fits = !(u.query && len_before > 0 && len_before + 1 > cap);
                     if !sep_fits {
-                        alt_wanted |= V_LAZY;
+                        alt_wanted |= V_LAZY | V_DEFER;
                     }
-                    if !sep_fits && !it.lazy {
+                    if !sep_fits && !it.lazy && !defer {
                         // response_unit() fails before the handler is entered: the unit has no
                         // effect and its handler is not invoked
                         if let Some(last) = it.calls.last() {
